@@ -1,8 +1,234 @@
-(* Property C02 — swap probabilities equal the exact permanent ratios (work in progress) *)
-From Coq Require Import QArith List Arith.
-From Inf Require Import spec.PermS proofs.PermSpecP.
+(* Property C02 - swap probabilities equal the exact permanent ratios.
+
+   Specification (spec/PermS.v, independent of the model): perm by first-row expansion,
+   Pspec n W i j = W_ij * perm(W without row i, column j) / perm W.
+   Model (model/PermM.v): REPEX_state.inf_retis, quick_prob, find_blocks, permanent_prob,
+   fast_glynn_perm over exact rationals, tied to /repo by py/checks/c02.py on every run.
+
+   This file only restates results proved in proofs/Perm*P.v, so that the statements cannot be
+   weakened silently; each is followed by Print Assumptions.  Theorems whose name ends in
+   _bounded are proved by exhaustive computation (vm_compute) over a finite family whose bound
+   is part of the statement; all others hold for every size. *)
+From Coq Require Import ZArith QArith List Bool Arith Lia.
+Import ListNotations.
+From Inf Require Import model.PermM spec.PermS proofs.PermSpecP proofs.PermP proofs.PermQuickP
+  proofs.PermGlynnP proofs.PermTieP proofs.PermBoundAP proofs.PermBoundBP proofs.PermBoundCP.
 Open Scope Q_scope.
 
+(* ================================================================== *)
+(* 1. The specification: structural laws of Pspec, every size           *)
+
+(* zero weight -> zero probability *)
 Theorem C02_Pspec_zero_weight : forall n W i j, W i j == 0 -> Pspec n W i j == 0.
 Proof. exact Pspec_zero_weight. Qed.
 Print Assumptions C02_Pspec_zero_weight.
+
+(* Laplace expansion of the permanent along an arbitrary row and an arbitrary column,
+   and invariance under transposition *)
+Theorem C02_perm_expand_row : forall n W i, (i < n)%nat ->
+  perm n W == qsum n (fun j => W i j * perm (pred n) (minor i j W)).
+Proof. exact perm_expand_row. Qed.
+Print Assumptions C02_perm_expand_row.
+
+Theorem C02_perm_expand_col : forall n W j, (j < n)%nat ->
+  perm n W == qsum n (fun i => W i j * perm (pred n) (minor i j W)).
+Proof. exact perm_expand_col. Qed.
+Print Assumptions C02_perm_expand_col.
+
+Theorem C02_perm_transpose : forall n W, perm n (transpose W) == perm n W.
+Proof. exact perm_transpose. Qed.
+Print Assumptions C02_perm_transpose.
+
+(* doubly stochastic: every row and every column of Pspec sums to one *)
+Theorem C02_Pspec_row_sum : forall n W i, (i < n)%nat -> ~ perm n W == 0 ->
+  qsum n (fun j => Pspec n W i j) == 1.
+Proof. exact Pspec_row_sum. Qed.
+Print Assumptions C02_Pspec_row_sum.
+
+Theorem C02_Pspec_col_sum : forall n W j, (j < n)%nat -> ~ perm n W == 0 ->
+  qsum n (fun i => Pspec n W i j) == 1.
+Proof. exact Pspec_col_sum. Qed.
+Print Assumptions C02_Pspec_col_sum.
+
+(* multilinearity: rescaling one path's weights rescales the permanent and leaves Pspec unchanged
+   (this is also what justifies the row rescaling inside permanent_prob) *)
+Theorem C02_perm_scale_row : forall n W k c, (k < n)%nat ->
+  perm n (scale_row k c W) == c * perm n W.
+Proof. exact perm_scale_row. Qed.
+Print Assumptions C02_perm_scale_row.
+
+Theorem C02_Pspec_scale_invariant : forall n W k c i j,
+  ~ c == 0 -> (k < n)%nat -> (i < n)%nat -> (j < n)%nat ->
+  Pspec n (scale_row k c W) i j == Pspec n W i j.
+Proof. exact Pspec_scale_invariant. Qed.
+Print Assumptions C02_Pspec_scale_invariant.
+
+(* probabilities are non-negative for non-negative weights *)
+Theorem C02_Pspec_nonneg : forall n W i j,
+  (forall a b, (a < n)%nat -> (b < n)%nat -> 0 <= W a b) ->
+  0 < perm n W -> (i < n)%nat -> (j < n)%nat -> 0 <= Pspec n W i j.
+Proof. exact Pspec_nonneg. Qed.
+Print Assumptions C02_Pspec_nonneg.
+
+(* the hypotheses are satisfiable: a weighted staircase with perm = 409 *)
+Example C02_spec_example :
+  let W := of_lists [[3; 2; 0]; [5; 4; 1]; [4; 3; 2]] in
+  ~ perm 3 W == 0 /\ Pspec 3 W 0 0 == 33 # 71 /\ Pspec 3 W 0 2 == 0.
+Proof. cbv zeta. repeat split; vm_compute; discriminate || reflexivity. Qed.
+
+(* ================================================================== *)
+(* 2. The model of inf_retis / quick_prob / fast_glynn_perm, every size *)
+
+(* busy rows and busy columns of the result of inf_retis are zero - for every weight matrix,
+   lock vector, offset and whatever np.argsort answers (mi, pi) *)
+Theorem C02_inf_retis_locked_zero : forall rp mi pi off W locks P i j,
+  inf_retis_with rp mi pi off W locks = Some P ->
+  nth i locks false = true \/ nth j locks false = true ->
+  mget P i j = 0.
+Proof. exact inf_retis_with_locked_zero. Qed.
+Print Assumptions C02_inf_retis_locked_zero.
+
+(* the idle block of the result is the result of inf_retis on the idle sub-matrix alone *)
+Theorem C02_inf_retis_idle_block : forall rp mi pi off W locks,
+  length W = length locks ->
+  inf_retis_with rp mi pi off W locks =
+  option_map (reinsert locks)
+    (inf_retis_with rp mi pi (off - count_true (firstn off locks)) (unlocked W locks)
+                    (repeat false (length (unlocked W locks)))).
+Proof. exact inf_retis_with_idle_block. Qed.
+Print Assumptions C02_inf_retis_idle_block.
+
+(* quick_prob (the fast path) is doubly stochastic, non-negative and zero where the weight is
+   zero, for every n x n matrix whose column c has at most c zero entries ... *)
+Theorem C02_quick_prob_doubly_stochastic : forall n (arr : matrix),
+  length arr = n -> Forall (fun r => length r = n) arr ->
+  (forall c, (c < n)%nat -> (nzeros (col c arr) <= c)%nat) ->
+  let P := quick_prob arr in
+  (forall i, (i < n)%nat -> qsuml (rownth P i) == 1) /\
+  (forall j, (j < n)%nat -> qsuml (col j P) == 1) /\
+  (forall i j, 0 <= mget P i j) /\
+  (forall i j, (i < n)%nat -> (j < n)%nat -> mget arr i j == 0 -> mget P i j == 0).
+Proof. exact quick_prob_doubly_stochastic. Qed.
+Print Assumptions C02_quick_prob_doubly_stochastic.
+
+(* ... in particular for every staircase of any size with arbitrary non-zero weights whose r-th
+   row (in the sorted order) reaches beyond the diagonal (Hall's condition, i.e. perm <> 0) *)
+Theorem C02_quick_prob_doubly_stochastic_staircase : forall n rows,
+  length rows = n ->
+  Forall (Forall (fun w => ~ w == 0)) rows ->
+  (forall r, (r < n)%nat -> (r < length (nth r rows []) <= n)%nat) ->
+  let P := quick_prob (staircase n rows) in
+  (forall i, (i < n)%nat -> qsuml (rownth P i) == 1) /\
+  (forall j, (j < n)%nat -> qsuml (col j P) == 1) /\
+  (forall i j, 0 <= mget P i j) /\
+  (forall i j, (i < n)%nat -> (j < n)%nat -> mget (staircase n rows) i j == 0 -> mget P i j == 0).
+Proof. exact quick_prob_doubly_stochastic_staircase. Qed.
+Print Assumptions C02_quick_prob_doubly_stochastic_staircase.
+
+Example C02_quick_prob_example :
+  let rows := [[1; 1]; [1; 1; 1]; [1; 1; 1]] in
+  length rows = 3%nat /\ (forall r, (r < 3)%nat -> (r < length (nth r rows []) <= 3)%nat) /\
+  quick_prob (staircase 3 rows) = [[1 # 2; 1 # 2; 0]; [1 # 4; 1 # 4; 1 # 2]; [1 # 4; 1 # 4; 1 # 2]].
+Proof.
+  cbv zeta. split; [reflexivity|]. split; [|vm_compute; reflexivity].
+  intros r Hr. destruct r as [|[|[|r]]]; cbn; lia.
+Qed.
+
+(* the Qred normalisation the executable model applies inside the Glynn loop does not change
+   its value (so statements about the loop in plain arithmetic transfer to the model) *)
+Theorem C02_fast_glynn_Qred_immaterial : forall M,
+  oq_eq (fast_glynn_perm M) (fast_glynn_perm_with (fun x => x) M).
+Proof. exact fast_glynn_perm_Qred_immaterial. Qed.
+Print Assumptions C02_fast_glynn_Qred_immaterial.
+
+(* ================================================================== *)
+(* 3. Refinement inf_retis = Pspec, bounded by computation              *)
+
+(* [refines_Pspec rp W locks]: if some ensemble is idle and the idle block has a non-zero
+   permanent, inf_retis returns a matrix equal to Pspec on the idle block and zero on every busy
+   row and column.  rp = random_prob, arbitrary (never reached below 13 paths). *)
+
+(* ALL 0/1 staircase states with 1..5 plus-ensembles (n = m + 2 with [0-] and the ghost), every
+   support sequence (= every order of the live paths), every set of busy ensembles *)
+Theorem C02_inf_retis_eq_Pspec_staircase01_5_bounded : forall rp m ks lk,
+  (1 <= m <= 5)%nat ->
+  length ks = m -> (forall k, In k ks -> (1 <= k <= m)%nat) ->
+  length lk = S m ->
+  refines_Pspec rp (stair_matrix ks) (lk ++ [true]).
+Proof. exact inf_retis_eq_Pspec_staircase01_5. Qed.
+Print Assumptions C02_inf_retis_eq_Pspec_staircase01_5_bounded.
+
+(* 6 plus-ensembles: every support multiset (paths stored in non-decreasing order of support),
+   every set of busy ensembles *)
+Theorem C02_inf_retis_eq_Pspec_staircase01_sorted_6_bounded : forall rp ks lk,
+  length ks = 6%nat -> nondecr 1 ks -> (forall k, In k ks -> (k <= 6)%nat) ->
+  length lk = 7%nat ->
+  refines_Pspec rp (stair_matrix ks) (lk ++ [true]).
+Proof. exact inf_retis_eq_Pspec_staircase01_sorted_6. Qed.
+Print Assumptions C02_inf_retis_eq_Pspec_staircase01_sorted_6_bounded.
+
+(* weighted staircases (block-wise path: find_blocks, permanent_prob with row rescaling, Glynn):
+   1..3 plus-ensembles, every support sequence, weights in {1,2}, every set of busy ensembles *)
+Theorem C02_inf_retis_eq_Pspec_weighted12_3_bounded : forall rp m rows lk,
+  (1 <= m <= 3)%nat ->
+  length rows = m ->
+  (forall row, In row rows -> (1 <= length row <= m)%nat /\ (forall w, In w row -> In w [1; 2])) ->
+  length lk = S m ->
+  refines_Pspec rp (wstair_matrix rows) (lk ++ [true]).
+Proof. exact inf_retis_eq_Pspec_weighted12_3. Qed.
+Print Assumptions C02_inf_retis_eq_Pspec_weighted12_3_bounded.
+
+(* the same with weights in {1,2,3}, nothing busy *)
+Theorem C02_inf_retis_eq_Pspec_weighted123_3_bounded : forall rp m rows,
+  (1 <= m <= 3)%nat ->
+  length rows = m ->
+  (forall row, In row rows -> (1 <= length row <= m)%nat /\ (forall w, In w row -> In w [1; 2; 3])) ->
+  refines_Pspec rp (wstair_matrix rows) (repeat false (S m) ++ [true]).
+Proof. exact inf_retis_eq_Pspec_weighted123_3_idle. Qed.
+Print Assumptions C02_inf_retis_eq_Pspec_weighted123_3_bounded.
+
+(* np.argsort's order among equal keys is machine dependent: for all 0/1 staircase states with up
+   to 4 plus-ensembles and all busy sets, EVERY valid pair of argsort answers gives the result of
+   the stable order the model uses *)
+Theorem C02_inf_retis_tie_order_independent_4_bounded : forall rp m ks lk mi pi,
+  (1 <= m <= 4)%nat ->
+  length ks = m -> (forall k, In k ks -> (1 <= k <= m)%nat) ->
+  length lk = S m ->
+  let W := stair_matrix ks in
+  let locks := lk ++ [true] in
+  is_argsort (minus_keys 1 W locks) mi = true ->
+  is_argsort (pos_keys 1 W locks) pi = true ->
+  omat_eqb (inf_retis_with rp mi pi 1 W locks) (inf_retis rp 1 W locks) = true.
+Proof. exact inf_retis_tie_order_independent_4. Qed.
+Print Assumptions C02_inf_retis_tie_order_independent_4_bounded.
+
+(* the hypotheses are satisfiable: three plus-ensembles, supports (3,1,3), ensemble 2 busy *)
+Example C02_refinement_example :
+  let ks := [3; 1; 3]%nat in
+  let lk := [false; false; true; false] in
+  let W := stair_matrix ks in
+  let locks := lk ++ [true] in
+  idle_idx locks <> [] /\
+  ~ perm (length (idle_idx locks)) (of_lists (idle_block W locks)) == 0 /\
+  inf_retis (fun M => M) 1 W locks =
+    Some [[1; 0; 0; 0; 0]; [0; 1 # 2; 0; 1 # 2; 0]; [0; 0; 0; 0; 0]; [0; 1 # 2; 0; 1 # 2; 0]; [0; 0; 0; 0; 0]].
+Proof. cbv zeta. repeat split; vm_compute; discriminate || reflexivity. Qed.
+
+(* ================================================================== *)
+(* 4. Glynn's formula = permanent, bounded size, symbolic entries        *)
+
+(* the Gray-code loop of fast_glynn_perm returns the permanent of EVERY rational n x n matrix,
+   n <= 4 (proved on symbolic entries by field) *)
+Theorem C02_fast_glynn_eq_perm_le4_bounded : forall n M, (1 <= n <= 4)%nat -> square n M ->
+  exists p, fast_glynn_perm M = Some p /\ p == perm n (of_lists M).
+Proof. exact fast_glynn_eq_perm_le4. Qed.
+Print Assumptions C02_fast_glynn_eq_perm_le4_bounded.
+
+(* Glynn's formula as the plain sum over sign vectors *)
+Theorem C02_glynn_plain_eq_perm_le4_bounded : forall n M, (n <= 4)%nat -> glynn_plain n M == perm n M.
+Proof. exact glynn_plain_eq_perm_le4. Qed.
+Print Assumptions C02_glynn_plain_eq_perm_le4_bounded.
+
+Example C02_glynn_example :
+  square 3 [[3; 2; 1]; [5; 4; 1]; [4; 3; 2]] /\ fast_glynn_perm [[3; 2; 1]; [5; 4; 1]; [4; 3; 2]] = Some 80.
+Proof. split; [split; [reflexivity | repeat constructor] | vm_compute; reflexivity]. Qed.
